@@ -78,10 +78,10 @@ Proof.
   apply mod_bounded_shift; auto with tinv.
 Qed.
 
-Lemma is_seq_ok_G g t len seq syn fin : g_nxt g = wadd (rcv_nxt t) dP -> u32 seq ->
+Lemma is_seq_ok_G g t len seq syn fin : g_nxt g = wadd (rcv_nxt t) dP -> u32 seq -> u32 (rcv_nxt t) ->
   is_seq_ok (G g t) len (wadd seq dP) syn fin = is_seq_ok t len seq syn fin.
 Proof.
-  intros E Hn. unfold is_seq_ok.
+  intros E Hn Hr. unfold is_seq_ok.
   rewrite (wadd_swap seq dP), wsub_wadd_l.
   rewrite !is_in_rcv_window_G by auto with tinv.
   tcb_cbn. rewrite E. rewrite wsub_wadd_l.
@@ -165,11 +165,15 @@ Proof.
   { exists g. cbn [fst snd]. rewrite ack_hdr_G by exact En. rewrite enqueue_G.
     repeat split; unfold enqueue; destruct (_ || _); tcb_cbn; assumption. }
   change (set_snd_una (G g t) (wadd (h_ack h) dO)) with (G g (set_snd_una t (h_ack h))).
-  rewrite remove_acked_G. tcb_cbn.
-  rewrite E1, E2. rewrite mod_lt_shift, eqb_shift, mod_leq_shift by assumption.
-  destruct (mod_lt (snd_wl1 t) (h_seq h) || _); cbn [fst snd].
+  rewrite remove_acked_G.
+  set (t1 := remove_acked (set_snd_una t (h_ack h)) (h_ack h)).
+  assert (W1 : snd_wl1 t1 = snd_wl1 t) by reflexivity.
+  assert (W2 : snd_wl2 t1 = snd_wl2 t) by reflexivity.
+  clearbody t1. tcb_cbn. rewrite E1, E2, <- W1, <- W2.
+  rewrite mod_lt_shift, eqb_shift, mod_leq_shift by (rewrite ?W1, ?W2; assumption).
+  destruct (mod_lt (snd_wl1 t1) (h_seq h) || _); cbn [fst snd].
   - eexists (mkG _ _ _ _). split; [reflexivity|]. repeat split; reflexivity.
-  - exists g. repeat split; assumption.
+  - exists g. repeat split; congruence.
 Qed.
 
 (* ---- stage 2 ---- *)
@@ -190,8 +194,8 @@ Proof.
      tinv (fst (ack_est t h)) /\ st (fst (ack_est t h)) = st t).
   { intros Hst. rewrite Hst in Hsw.
     destruct (ack_est_rel t t' h HR Hu Hn Ha Hack Hst ltac:(congruence)) as [A B].
-    repeat split; auto using ack_est_st.
-    apply tinv_ack_est; auto. repeat split; auto. }
+    split; [exact A | split; [exact B | split; [|apply ack_est_st]]].
+    apply tinv_ack_est; auto. split; [|split]; assumption. }
   destruct HR as (g & -> & Hv). tcb_cbn.
   destruct (st t) eqn:Hst.
   - (* SynSent *)
@@ -412,7 +416,7 @@ Proof.
     end).
   { destruct HR as (g & -> & Hv). tcb_cbn.
     destruct (st t) eqn:Hst; try reflexivity;
-      (destruct (Hv ltac:(rewrite Hst; reflexivity)) as [Ei En]; rewrite is_seq_ok_G by assumption; reflexivity). }
+      (destruct (Hv ltac:(rewrite Hst; reflexivity)) as [Ei En]; rewrite is_seq_ok_G by (try assumption; apply Hi); reflexivity). }
   rewrite E1. clear E1.
   match goal with |- rrel _ (if ?c then _ else _) _ => destruct c eqn:Ebad end.
   { cbn [rrel]. destruct HR as (g & -> & Hv).
